@@ -147,6 +147,11 @@ func newAdversary(w *World) *adversary {
 
 // certify builds a certificate for b from the Byzantine replica's own signature and the honest votes it was sent.
 func (a *adversary) certify(nd *Node, b *hotstuff.Block) (hotstuff.QuorumCert, bool) {
+	return a.certifyWith(nd, b, quorumOf(a.w.plan.N))
+}
+
+// certifyWith builds a certificate for b from exactly need genuine votes (Z's own and what Z has been sent).
+func (a *adversary) certifyWith(nd *Node, b *hotstuff.Block, need int) (hotstuff.QuorumCert, bool) {
 	own := a.ownSig(nd, b.ToBytes())
 	if own == nil {
 		return hotstuff.QuorumCert{}, false
@@ -163,10 +168,10 @@ func (a *adversary) certify(nd *Node, b *hotstuff.Block) (hotstuff.QuorumCert, b
 		got[v.Signer()] = true
 		parts = append(parts, v)
 	}
-	if len(parts) < quorumOf(a.w.plan.N) {
+	if len(parts) < need {
 		return hotstuff.QuorumCert{}, false
 	}
-	qc, err := nd.auth.CreateQuorumCert(b, parts[:quorumOf(a.w.plan.N)])
+	qc, err := nd.auth.CreateQuorumCert(b, parts[:need])
 	return qc, err == nil
 }
 
@@ -217,6 +222,10 @@ func (a *adversary) locklessStep() {
 	}
 	g := hotstuff.GetGenesis()
 	gqc := hotstuff.NewQuorumCert(nil, 0, g.Hash())
+	if w.plan.knob("llMode", 0) == 1 {
+		a.unanimousStep(nd, mk, propose, newView)
+		return
+	}
 	switch ll.phase {
 	case 0:
 		cut(false)
@@ -277,6 +286,67 @@ func (a *adversary) locklessStep() {
 	}
 }
 
+// unanimousStep is the second script of lockless (knob llMode = 1), a directed attack on the length of the chain that
+// decides ("a certificate signed by everybody is not a shorter way to decide"): Z leads every view and nobody is cut off.
+//
+//	views 1-3  Z proposes B1, B2, B3 to everybody; everybody votes, everybody is locked on B1
+//	view 4     C alone gets B4 with a certificate for B3 that carries the votes of ALL replicas: C decides B1, no more
+//	           V and W get W4 on top of B1 (the block they are locked on), later W5, W6, W7, and decide W4
+//
+// If C decided B2 on the strength of the unanimous certificate, the ledgers of C and of V, W diverge.
+func (a *adversary) unanimousStep(nd *Node, mk func(string, *hotstuff.Block, hotstuff.QuorumCert, hotstuff.View) *hotstuff.Block,
+	propose func(*hotstuff.Block, ...hotstuff.ID), newView func(hotstuff.QuorumCert, ...hotstuff.ID)) {
+	w, ll := a.w, a.ll
+	g := hotstuff.GetGenesis()
+	switch ll.phase {
+	case 0:
+		propose(mk("B1", g, hotstuff.NewQuorumCert(nil, 0, g.Hash()), 1), ll.c, ll.v, ll.w2)
+		ll.phase = 1
+		a.fired("lockless")
+	case 1, 2:
+		prev := ll.b[fmt.Sprintf("B%d", ll.phase)]
+		qc, ok := a.certify(nd, prev)
+		if !ok {
+			return
+		}
+		propose(mk(fmt.Sprintf("B%d", ll.phase+1), prev, qc, hotstuff.View(ll.phase+1)), ll.c, ll.v, ll.w2)
+		ll.phase++
+	case 3:
+		all, ok := a.certifyWith(nd, ll.b["B3"], w.plan.N)
+		if !ok {
+			return
+		}
+		qc3, _ := a.certify(nd, ll.b["B3"])
+		propose(mk("B4", ll.b["B3"], all, 4), ll.c)
+		newView(qc3, ll.v, ll.w2)
+		w.probe("attack:unanimous-certificate-shown")
+		ll.at = w.now()
+		ll.phase = 4
+	case 4:
+		if w.now()-ll.at < 2*time.Millisecond {
+			return
+		}
+		qc1, ok := a.certify(nd, ll.b["B1"])
+		if !ok {
+			return
+		}
+		ll.b["X3"] = ll.b["B1"]
+		propose(mk("X4", ll.b["B1"], qc1, 4), ll.v, ll.w2)
+		ll.phase = 5
+	case 5, 6, 7:
+		prev := ll.b[fmt.Sprintf("X%d", ll.phase-1)]
+		qc, ok := a.certify(nd, prev)
+		if !ok {
+			return
+		}
+		propose(mk(fmt.Sprintf("X%d", ll.phase), prev, qc, hotstuff.View(ll.phase)), ll.v, ll.w2)
+		ll.phase++
+	case 8:
+		w.probe("attack:unanimous-completed")
+		ll.phase = 9
+	}
+}
+
 // forgedFor returns a certificate of the attack's shape for block b (votes: what Z has been sent for it).
 func (a *adversary) forgedFor(nd *Node, b *hotstuff.Block, kind int) (hotstuff.QuorumCert, bool) {
 	w := a.w
@@ -322,6 +392,14 @@ func (a *adversary) forgedFor(nd *Node, b *hotstuff.Block, kind int) (hotstuff.Q
 	case 9:
 		if vote != nil {
 			sig = sandwichSig(own, vote) // own, the victim's genuine vote, own again: repeats that are not neighbours
+		}
+	case 10:
+		// (BLS) the genuine aggregate of one or two signers, its bit field filled up with replicas that do not exist
+		sig = ghostBLS(own, w.plan.N, q)
+		if vote != nil {
+			if c, err := nd.raw.Combine(own, vote); err == nil {
+				sig = ghostBLS(c, w.plan.N, q)
+			}
 		}
 	}
 	if sig == nil {
@@ -865,6 +943,25 @@ func padBLS(sig hotstuff.QuorumSignature, k int) hotstuff.QuorumSignature {
 	return r
 }
 
+// ghostBLS returns the same BLS point with bits of replicas n+1, n+2, ... (which nobody has) added to its signer bit
+// field until the field counts q signers.
+func ghostBLS(sig hotstuff.QuorumSignature, n, q int) hotstuff.QuorumSignature {
+	s, ok := sig.(*crypto.BLS12AggregateSignature)
+	if !ok {
+		return nil
+	}
+	var bf crypto.Bitfield
+	s.Participants().ForEach(func(id hotstuff.ID) { bf.Add(id) })
+	for id := n + 1; bf.Len() < q; id++ {
+		bf.Add(hotstuff.ID(id))
+	}
+	r, err := crypto.RestoreBLS12AggregateSignature(s.ToBytes(), bf)
+	if err != nil {
+		return nil
+	}
+	return r
+}
+
 // oneValidSig: own's signature bytes under every name in others, plus the genuine entry at the end (where 0), the
 // beginning (1) or in the middle (2).
 func oneValidSig(scheme string, own hotstuff.QuorumSignature, self hotstuff.ID, others []hotstuff.ID, where int) hotstuff.QuorumSignature {
@@ -1057,6 +1154,50 @@ func (a *adversary) forgeQC(nd *Node, kind string, view hotstuff.View) (hotstuff
 	case "relabel":
 		return hotstuff.NewQuorumCert(base.Signature(), base.View()+hotstuff.View(1+a.intn(12)), base.BlockHash()), true
 	case "subquorum":
+		if w.plan.Crypto == crypto.NameBLS12 && mix(w.plan.Inner, 0x67686f73, a.ctr)%2 == 0 {
+			// a genuine aggregate of two signers (one's own signature and a vote one was sent) for a real block - or one's
+			// own signature alone for a block nobody voted for - with bits of replicas that do not exist set in the bit
+			// field until the count of signers makes a quorum
+			for i := len(a.votes) - 1; i >= 0 && i >= len(a.votes)-8; i-- {
+				v := a.votes[i]
+				rb := w.reg.get(v.BlockHash())
+				if rb == nil || v.Signer() == nd.id || v.Signature() == nil || v.Signature().Participants().Len() != 1 {
+					continue
+				}
+				if vs, ok := v.Signature().(*crypto.BLS12AggregateSignature); ok && mix(w.plan.Inner, 0x72656c62, a.ctr)%2 == 0 {
+					// the bytes of that one vote, as they are, under the names of a quorum of real replicas (the voter,
+					// who has signed exactly these bytes, among them)
+					var bf crypto.Bitfield
+					bf.Add(v.Signer())
+					for _, id := range a.others(nd) {
+						if bf.Len() < q {
+							bf.Add(id)
+						}
+					}
+					if bf.Len() < q {
+						bf.Add(nd.id)
+					}
+					if rs, err := crypto.RestoreBLS12AggregateSignature(vs.ToBytes(), bf); err == nil {
+						a.fired("subquorum-vote-under-a-quorum-of-names")
+						return hotstuff.NewQuorumCert(rs, rb.View(), rb.Hash()), true
+					}
+				}
+				if mine := a.ownSig(nd, rb.ToBytes()); mine != nil {
+					if c, err := nd.raw.Combine(mine, v.Signature()); err == nil {
+						if gs := ghostBLS(c, w.plan.N, q); gs != nil {
+							a.fired("subquorum-ghost-signers")
+							return hotstuff.NewQuorumCert(gs, rb.View(), rb.Hash()), true
+						}
+					}
+				}
+			}
+			if b := a.craftBlock(nd, view); b != nil {
+				if gs := ghostBLS(a.ownSig(nd, b.ToBytes()), w.plan.N, q); gs != nil {
+					a.fired("subquorum-ghost-signers")
+					return hotstuff.NewQuorumCert(gs, b.View(), b.Hash()), true
+				}
+			}
+		}
 		if sig := truncSig(base.Signature(), 1+base.Signature().Participants().Len()-q); sig != nil {
 			return hotstuff.NewQuorumCert(sig, base.View(), base.BlockHash()), true
 		}
